@@ -362,6 +362,15 @@ def gen_sends(ctx, logs_variants):
             want, _ = expected_peer(case)
             case['expect_peer_len'] = len(want)
             cases.append(case)
+    # the whole control-character table (every printable ASCII character as the argument of sendcontrol), in both modes
+    for enc in (None, 'utf-8'):
+        chars = [chr(c) for c in range(32, 127)]
+        for part in (chars[:48], chars[48:]):
+            ops = [('C', ch) for ch in part] + [('S', 'z')]
+            case = dict(transport='pty', encoding=enc, errors='strict', ops=ops, logs=logs_variants[-1])
+            want, _ = expected_peer(case)
+            case['expect_peer_len'] = len(want)
+            cases.append(case)
     # stateful encoders (a BOM / shift state must be written once per stream, not once per call), on every transport
     for tr in TRANSPORTS:
         for enc in (['utf-16', 'utf-8-sig', 'utf-32'] if not ctx.quick() else ['utf-16', 'utf-8-sig']):
